@@ -570,7 +570,27 @@ func (n *NSQD) DeleteExistingTopic(topicName string) error {
 	delete(n.topicMap, topicName)
 	n.Unlock()
 
+	if !topic.ephemeral {
+		n.persistAfterDelete()
+	}
+
 	return nil
+}
+
+// persistAfterDelete persists the metadata once a deleted topic or channel
+// has left its map: the persist that Notify() triggers from Delete() can run
+// while the object is still listed, which would leave it in the metadata
+// file (and resurrect it on restart) until some later change
+func (n *NSQD) persistAfterDelete() {
+	if atomic.LoadInt32(&n.isLoading) == 1 {
+		return
+	}
+	n.Lock()
+	err := n.PersistMetadata()
+	if err != nil {
+		n.logf(LOG_ERROR, "failed to persist metadata - %s", err)
+	}
+	n.Unlock()
 }
 
 func (n *NSQD) Notify(v interface{}, persist bool) {
